@@ -6,6 +6,8 @@ import Blue.Proofs.VerifyPair
 import Blue.Proofs.RecoverLedger
 import Blue.Proofs.ConstsTieC04
 import Blue.Proofs.BooksCrash
+import Blue.Proofs.BooksBytes
+import Blue.Proofs.BooksBytesSetsum
 /-! # Property C04 — one setsum covers all data: manifest, files and contents always balance
 
 Property theorems only.  Two layers, both over any commutative group (`Grp`; the canonical setsum
@@ -53,8 +55,25 @@ appends exactly `recoverRecs` (`recover_chains`) and ends with `O` = old `O` + r
 sum over those batches, `from_manifest` succeeding (`books_after_recovery`); and so on over any
 number of incarnations cut anywhere (`books_over_incarnations`, the shape of C02 `epochs_ok`,
 relative to the same `image false` assumption).  Outside: what is outside C02's alphabet (garbage
-collecting compactions in a continuing history, external ingest, the manifest's own rollover record,
-a flush racing a compaction), and the byte level of a torn manifest append (C13).
+collecting compactions in a continuing history, external ingest, a flush racing a compaction).
+
+Through the bytes (block `BooksBytes`, `Blue/Proofs/BooksBytes.lean`, C04 ∘ C13): the edit a booked
+transaction is written as (`bookedEdit`: files as the rendered digests that name them, info `D`, `I`,
+`O` as rendered digests; the rendering is a parameter `Codec`, and C14's `hexdigest` /
+`from_hexdigest` are one: `setsum_codec_ok`) reads back as its record (`booked_edit_roundtrip`); the
+MANIFEST's bytes for the manifest of any crash image, cut at ANY byte, read through C13's reader as a
+corruption error (`Manifest::open` fails: a torn tail is an error, not an accepted prefix) or as
+the whole edits of a prefix of the transactions, which parse to the booked records, verify from
+zero, and end with `O` = the sum over the files they list (`books_from_manifest_bytes`, under C13's
+CRC hypothesis); and across the manifest's own rollover (`rollRec`: no removal, all live files
+added, `I`/`O`/`D` of the LAST transaction) the new fragment `roll-up :: later` is accepted by
+`verify_one`'s rule, first record `O = acc` only (`books_across_rollover`, also from the bytes:
+`books_across_rollover_bytes`), and the checks of a later record would reject the roll-up
+(`rollup_needs_first_record_rule` and its example).  Not in these theorems: the `L` field of a
+flush's edit; `bookedEdit` takes the record's file lists in the order written (the verdict does not
+depend on it: `digest_names_same_verdict`), and that C13's `rollup` of the replayed state IS
+`bookedEdit` of `rollRec` (sorted, duplicate-free strings) is checked on the example, not in general;
+two files with one digest collapse into one string of the `BTreeSet`.
 
 Clauses of the property that are not theorems here: tampers of the
 first record of a fragment (`first_edit_checks` says what is checked there) — see `partial` in
@@ -647,6 +666,205 @@ example : validCompact kv0 (fun _ => true) [[], []]
 end BooksCrash
 -- END BooksCrash
 
+-- BEGIN BooksBytes
+/-! ## the books through the MANIFEST's bytes (C04 ∘ C13), and across the manifest's rollover -/
+section BooksBytes
+open Blue.BooksCrash Blue.BooksBytes
+variable {G : Type} [DecidableEq G] (g : Grp G) (h : Nat → G)
+
+/-- **`booked_edit_roundtrip`**: the manifest edit `apply_manifest_*` builds for a booked transaction
+    (`bookedEdit`: the removed and the added files as the rendered digests that name them, info
+    `D`, `I`, `O` as rendered digests) reads back, through `get_info` and `from_hexdigest`
+    (`recOfEdit`), as that record; and it is an edit the (repaired) API accepts and C13's reader
+    returns as written.  `Codec.Ok`: `parse (render x) = some x` and a rendered digest is a
+    non-empty ASCII string without newline or trailing `\r`. -/
+theorem booked_edit_roundtrip (c : Codec G) (hc : c.Ok) (r : Rec G G) :
+    recOfEdit c (bookedEdit c r) = some r ∧ (bookedEdit c r).Ok :=
+  ⟨Blue.BooksBytes.booked_edit_roundtrip c hc r, bookedEdit_ok c hc r⟩
+
+/-- **the codec of the code**: for the setsum group of C14 (`group`), `Setsum::hexdigest` and
+    `Setsum::from_hexdigest` as the C14 model has them (64 hex digits, as bytes) satisfy `Codec.Ok` —
+    so the theorems of this block hold with `g := setsumGrp`, `c := setsumCodec` with no hypothesis
+    about the rendering -/
+theorem setsum_codec_ok : setsumCodec.Ok := setsumCodec_ok
+
+/-- the chain / balance / discard pass over records whose files are named by their digests (as the
+    manifest names them) is the pass over the records themselves, and does not depend on the order
+    in which an edit lists its strings (`mani::Edit` holds `BTreeSet`s; the writer emits them sorted) -/
+theorem digest_names_same_verdict {F : Type} [DecidableEq F] (s : F → G) (recs recs' : List (Rec G F)) (o : G)
+    (hs : SameUpToOrder recs recs') :
+    verify g id o (recs.map (digestRec s)) = verify g s o recs
+    ∧ lastO o (recs.map (digestRec s)) = lastO o recs
+    ∧ verify g s o recs = verify g s o recs' :=
+  ⟨verify_digestRec g s recs o, lastO_digestRec s recs o, verify_perm g s recs recs' o hs⟩
+
+/-- **`books_from_manifest_bytes`**: every history of C02's alphabet, every crash point `n` of its
+    system-call sequence, both persistence models; `M` the manifest (a list of transactions) the
+    crash leaves, `es` the booked edits `Manifest::apply` was called with, and then the BYTES C13's
+    writer lays down for them, cut at ANY byte `m` — a torn append.  C13's reader on those bytes
+    (the fuel is `openBytes`'s):
+    * either ends in a corruption error — `Manifest::open` FAILS (`openBytes = none`): a torn tail is
+      an error, not an accepted prefix; the store does not open on it (the error is raised at the
+      torn line; every line before it was read as written);
+    * or returns exactly the edits of the first `k` transactions, whole (the cut fell on a line
+      boundary: the lines of an unterminated edit are dropped); they parse back, digests through
+      `from_hexdigest`, to the booked records of `M.take k`; `Books.verify` accepts those from the
+      zero setsum; and their last `O` is the group sum over the files `M.take k` lists.
+    `hnc` is C13's hypothesis about the CRC (no proper prefix of a written line's body carries the
+    body's checksum); `c.Ok` is about `hexdigest` / `from_hexdigest`. -/
+theorem books_from_manifest_bytes (crc : List Nat → Nat) (hcrc : Blue.Mani.CrcOk crc) (c : Codec G) (hc : c.Ok)
+    (hist : List Blue.StoreCrash.Client) (n : Nat) (b : Bool)
+    (hnc : ∀ l ∈ Blue.Mani.linesOf (maniEdits g h c
+      (maniOf b (Blue.StoreCrash.run Blue.StoreCrash.fs0 ((Blue.StoreCrash.opsOf hist Blue.StoreCrash.kv0).take n)))),
+        l.NoCollision crc) (m : Nat) :
+    let M := maniOf b (Blue.StoreCrash.run Blue.StoreCrash.fs0 ((Blue.StoreCrash.opsOf hist Blue.StoreCrash.kv0).take n))
+    let es := maniEdits g h c M
+    let bytes := (Blue.Mani.fileBytes crc es).take m
+    ((Blue.Mani.readEdits crc (bytes.length + 2) bytes Blue.Mani.Edit.empty).2 = true
+      ∧ Blue.Mani.openBytes crc bytes = none)
+    ∨ ∃ k, Blue.Mani.readEdits crc (bytes.length + 2) bytes Blue.Mani.Edit.empty = (es.take k, false)
+        ∧ Blue.Mani.openBytes crc bytes = some (Blue.ManiCrash.replay Blue.Mani.maniAlgebra (es.take k))
+        ∧ recsOfEdits c (es.take k) = some (maniRecs g h (M.take k))
+        ∧ verify g id g.zero (maniRecs g h (M.take k)) = true
+        ∧ lastO g.zero (maniRecs g h (M.take k))
+            = total g (Blue.BooksCrash.digest g h) (Blue.StoreCrash.live (M.take k)) :=
+  Blue.BooksBytes.books_from_manifest_bytes g h crc hcrc c hc hist n b hnc m
+
+/-- … for any manifest of good transactions (`GoodTxs`: what `history_txs_good` shows of every
+    history), not only those of a crash image -/
+theorem books_from_bytes_good (crc : List Nat → Nat) (hcrc : Blue.Mani.CrcOk crc) (c : Codec G) (hc : c.Ok)
+    (M : List Blue.StoreCrash.Tx) (hgood : GoodTxs [] M)
+    (hnc : ∀ l ∈ Blue.Mani.linesOf (maniEdits g h c M), l.NoCollision crc) (m : Nat) :
+    let es := maniEdits g h c M
+    let bytes := (Blue.Mani.fileBytes crc es).take m
+    ((Blue.Mani.readEdits crc (bytes.length + 2) bytes Blue.Mani.Edit.empty).2 = true
+      ∧ Blue.Mani.openBytes crc bytes = none)
+    ∨ ∃ k, Blue.Mani.readEdits crc (bytes.length + 2) bytes Blue.Mani.Edit.empty = (es.take k, false)
+        ∧ Blue.Mani.openBytes crc bytes = some (Blue.ManiCrash.replay Blue.Mani.maniAlgebra (es.take k))
+        ∧ recsOfEdits c (es.take k) = some (maniRecs g h (M.take k))
+        ∧ verify g id g.zero (maniRecs g h (M.take k)) = true
+        ∧ lastO g.zero (maniRecs g h (M.take k))
+            = total g (Blue.BooksCrash.digest g h) (Blue.StoreCrash.live (M.take k)) :=
+  Blue.BooksBytes.books_from_bytes_good g h crc hcrc c hc M hgood hnc m
+
+/-- **`books_across_rollover`**: the manifest holds the good transactions `M1` and rolls over
+    (`Manifest::rollover` writes ONE edit, `to_edit` of the state: no removal, every live string
+    added, the info map as it stands — so `I`, `O`, `D` of the LAST transaction: `rollRec`); the
+    transactions `M2` follow.  Then: the roll-up's `O` is the accumulator the verifier holds after
+    the old fragment, and is the sum over the files the roll-up lists (so `from_manifest` on the
+    roll-up alone succeeds); the new fragment `roll-up :: later records` is accepted by
+    `verify_one`'s rule (`verifyFrag`: the first record is checked for `O = acc` only —
+    `first_edit_checks` — the rest is `Books.verify`); its last `O` is the sum over the files listed
+    after `M1 ++ M2`; the later records are those the unrolled manifest holds at these positions;
+    and the roll-up's `I` and `D` are the last transaction's (the tree's sum BEFORE it; its
+    discard), not quantities of the roll-up itself. -/
+theorem books_across_rollover (M1 M2 : List Blue.StoreCrash.Tx) (hgood : GoodTxs [] (M1 ++ M2)) :
+    let recs1 := booked g h [] M1
+    let files1 := Blue.StoreCrash.live M1
+    let acc := lastO g.zero recs1
+    let R := rollRec g.zero recs1 files1
+    let later := booked g h files1 M2
+    R.O = acc ∧ acc = total g (Blue.BooksCrash.digest g h) R.ad ∧ R.rm = []
+    ∧ verifyFrag g (Blue.BooksCrash.digest g h) acc (R :: later) = true
+    ∧ lastO acc (R :: later) = total g (Blue.BooksCrash.digest g h) (Blue.StoreCrash.live (M1 ++ M2))
+    ∧ later = (booked g h [] (M1 ++ M2)).drop M1.length
+    ∧ (∀ M0 tx, M1 = M0 ++ [tx] →
+        R.I = total g (Blue.BooksCrash.digest g h) (Blue.StoreCrash.live M0)
+        ∧ R.D = computedDiscard g (Blue.BooksCrash.digest g h) tx.rms tx.adds) :=
+  Blue.BooksBytes.books_across_rollover g h M1 M2 hgood
+
+/-- **the first-record rule is needed for acceptance**: the checks of a later record applied to the
+    roll-up pass only if its `I` (the last transaction's input) is the accumulator (the last
+    transaction's OUTPUT) and its `D` (the last transaction's discard) is minus the sum over all
+    live files — after an ingest (`D` = minus the new file) neither holds: see the example -/
+theorem rollup_needs_first_record_rule {F : Type} [DecidableEq F] (s : F → G) (acc : G)
+    (recs1 : List (Rec G F)) (files1 : List F) (later : List (Rec G F))
+    (hv : verify g s acc (rollRec g.zero recs1 files1 :: later) = true) :
+    (lastIOD g.zero recs1).1 = acc ∧ (lastIOD g.zero recs1).2.2 = computedDiscard g s [] files1 :=
+  Blue.BooksBytes.rollup_needs_first_record_rule g s acc recs1 files1 later hv
+
+/-- **… through the bytes**: the new MANIFEST (the roll-up's edit, then the later booked edits) cut
+    at any byte: `Manifest::open` fails; or reads nothing (the cut fell inside the roll-up — which is
+    written to a temporary, synced, and only then renamed: C13 `crash_recover`); or reads the
+    roll-up and the first `k` later transactions, whole — records that `verify_one`'s rule accepts
+    from the old accumulator and whose last `O` is the sum over the files then listed -/
+theorem books_across_rollover_bytes (crc : List Nat → Nat) (hcrc : Blue.Mani.CrcOk crc) (c : Codec G) (hc : c.Ok)
+    (M1 M2 : List Blue.StoreCrash.Tx) (hgood : GoodTxs [] (M1 ++ M2))
+    (hnc : ∀ l ∈ Blue.Mani.linesOf (((rollRec g.zero (booked g h [] M1) (Blue.StoreCrash.live M1)
+        :: booked g h (Blue.StoreCrash.live M1) M2).map (digestRec (Blue.BooksCrash.digest g h))).map (bookedEdit c)),
+          l.NoCollision crc)
+    (m : Nat) :
+    let acc := lastO g.zero (booked g h [] M1)
+    let R := rollRec g.zero (booked g h [] M1) (Blue.StoreCrash.live M1)
+    let recs := (R :: booked g h (Blue.StoreCrash.live M1) M2).map (digestRec (Blue.BooksCrash.digest g h))
+    let es := recs.map (bookedEdit c)
+    let bytes := (Blue.Mani.fileBytes crc es).take m
+    Blue.Mani.openBytes crc bytes = none
+    ∨ Blue.Mani.openBytes crc bytes = some (Blue.ManiCrash.replay Blue.Mani.maniAlgebra [])
+    ∨ ∃ k, Blue.Mani.openBytes crc bytes = some (Blue.ManiCrash.replay Blue.Mani.maniAlgebra (es.take (k + 1)))
+        ∧ recsOfEdits c (es.take (k + 1))
+            = some ((R :: booked g h (Blue.StoreCrash.live M1) (M2.take k)).map (digestRec (Blue.BooksCrash.digest g h)))
+        ∧ verifyFrag g (Blue.BooksCrash.digest g h) acc (R :: booked g h (Blue.StoreCrash.live M1) (M2.take k)) = true
+        ∧ lastO acc (R :: booked g h (Blue.StoreCrash.live M1) (M2.take k))
+            = total g (Blue.BooksCrash.digest g h) (Blue.StoreCrash.live (M1 ++ M2.take k)) :=
+  Blue.BooksBytes.books_across_rollover_bytes g h crc hcrc c hc M1 M2 hgood hnc m
+
+/-- non-vacuity of the hypotheses: the toy codec (ℤ mod 7 as one ASCII digit) is `Ok`; the manifest
+    "flush `{0}`, flush `{1}`, merge both into `{0,1}`" is good; under the toy checksum `lenCrc`
+    (a 32-bit function) no line of its edits, nor of the rolled manifest's, has a colliding prefix -/
+example : c7.Ok ∧ GoodTxs [] exM3 ∧ Blue.Mani.CrcOk lenCrc
+    ∧ (∀ l ∈ Blue.Mani.linesOf (maniEdits z7 h7 c7 exM3), l.NoCollision lenCrc)
+    ∧ (∀ l ∈ Blue.Mani.linesOf (((rollRec z7.zero (booked z7 h7 [] (exM3.take 2)) (Blue.StoreCrash.live (exM3.take 2))
+        :: booked z7 h7 (Blue.StoreCrash.live (exM3.take 2)) (exM3.drop 2)).map
+          (digestRec (Blue.BooksCrash.digest z7 h7))).map (bookedEdit c7)), l.NoCollision lenCrc) :=
+  ⟨c7_ok, by refine ⟨?_, ?_, ?_, trivial⟩ <;> (unfold GoodTx; decide), crcOk_lenCrc, noCollision_lenCrc _ (by decide), noCollision_lenCrc _ (by decide)⟩
+
+/-- non-vacuity of `booked_edit_roundtrip` and the text of a booked edit: the merge's record
+    (`I = 5, O = 5, D = 0`, removing the files with digests 1 and 4, adding the one with digest 5) is
+    the edit `-1 -4 +5 D0 I5 O5` and reads back -/
+example :
+    (maniRecs z7 h7 exM3).map (fun r => (r.I, r.O, r.D, r.rm, r.ad)) = [(0, 1, 6, [], [1]), (1, 5, 3, [], [4]), (5, 5, 0, [1, 4], [5])]
+    ∧ (maniEdits z7 h7 c7 exM3)[2]? = some ⟨[[49], [52]], [[53]], [(68, [48]), (73, [53]), (79, [53])]⟩
+    ∧ recsOfEdits c7 (maniEdits z7 h7 c7 exM3) = some (maniRecs z7 h7 exM3) := by decide
+
+/-- non-vacuity of `books_from_manifest_bytes`, both branches, under CRC-32C: the three-transaction
+    MANIFEST is 181 bytes, the third edit starts at byte 106.  Cut at 122, in the middle of the third
+    record's second line: `Manifest::open` fails.  Cut at 128, after that line (no separator yet):
+    the reader returns the first two edits, they parse to the first two booked records, which
+    verify from zero, and their last `O = 5` is the sum over the two files listed. -/
+example :
+    let es := maniEdits z7 h7 c7 exM3
+    let file := Blue.Mani.fileBytes Blue.Crc32c.crc32c es
+    file.length = 181 ∧ (Blue.Mani.fileBytes Blue.Crc32c.crc32c (es.take 2)).length = 106
+    ∧ Blue.Mani.openBytes Blue.Crc32c.crc32c (file.take 122) = none
+    ∧ Blue.Mani.readEdits Blue.Crc32c.crc32c 130 (file.take 128) Blue.Mani.Edit.empty = (es.take 2, false)
+    ∧ recsOfEdits c7 (es.take 2) = some (maniRecs z7 h7 (exM3.take 2))
+    ∧ verify z7 id 0 (maniRecs z7 h7 (exM3.take 2)) = true
+    ∧ lastO 0 (maniRecs z7 h7 (exM3.take 2)) = 5
+    ∧ total z7 (Blue.BooksCrash.digest z7 h7) (Blue.StoreCrash.live (exM3.take 2)) = 5 := by
+  decide +kernel
+
+/-- non-vacuity of `books_across_rollover`: a rollover after the second transaction.  The roll-up is
+    `I = 1, O = 5, D = 3` (the second flush's), adding the digests 1 and 4; its edit is the one C13's
+    `rollup` writes for the state the first two edits replay to; `verify_one`'s rule accepts
+    `roll-up :: merge` from the accumulator 5 and ends at `O = 5`, the digest of `{0,1}`; the checks of
+    a later record REJECT the roll-up (`I = 1 ≠ 5`): the first-record rule is what accepts it. -/
+example :
+    let M1 := exM3.take 2
+    let R := rollRec z7.zero (booked z7 h7 [] M1) (Blue.StoreCrash.live M1)
+    let later := booked z7 h7 (Blue.StoreCrash.live M1) (exM3.drop 2)
+    (R.I, R.O, R.D, R.rm, R.ad) = (1, 5, 3, [], [[0], [1]])
+    ∧ lastO z7.zero (booked z7 h7 [] M1) = 5
+    ∧ Blue.Mani.maniAlgebra.rollup (Blue.ManiCrash.replay Blue.Mani.maniAlgebra (maniEdits z7 h7 c7 M1))
+        = bookedEdit c7 (digestRec (Blue.BooksCrash.digest z7 h7) R)
+    ∧ verifyFrag z7 (Blue.BooksCrash.digest z7 h7) 5 (R :: later) = true
+    ∧ verify z7 (Blue.BooksCrash.digest z7 h7) 5 (R :: later) = false
+    ∧ lastO 5 (R :: later) = 5 ∧ Blue.StoreCrash.live exM3 = [[0, 1]]
+    ∧ total z7 (Blue.BooksCrash.digest z7 h7) (Blue.StoreCrash.live exM3) = 5 := by decide
+
+end BooksBytes
+-- END BooksBytes
+
 end Blue.Props.C04
 
 #print axioms Blue.Props.C04.group
@@ -691,3 +909,11 @@ end Blue.Props.C04
 #print axioms Blue.Props.C04.books_of_img
 #print axioms Blue.Props.C04.books_recovery_img
 #print axioms Blue.Props.C04.history_txs_good
+#print axioms Blue.Props.C04.booked_edit_roundtrip
+#print axioms Blue.Props.C04.setsum_codec_ok
+#print axioms Blue.Props.C04.digest_names_same_verdict
+#print axioms Blue.Props.C04.books_from_manifest_bytes
+#print axioms Blue.Props.C04.books_from_bytes_good
+#print axioms Blue.Props.C04.books_across_rollover
+#print axioms Blue.Props.C04.rollup_needs_first_record_rule
+#print axioms Blue.Props.C04.books_across_rollover_bytes
